@@ -738,4 +738,47 @@ def toJs (scrNum : Nat) (s : Script) : List JTop :=
                   body := [.ret [.call (.mem (jid "obj") h.name) [.spread "args".toList]]] }
   else s.handlers.map fun h => .func (toJsFunc hn false h)
 
+/-! ### reference printer of the expression subset (tokens), as the translator writes it -/
+
+def jsOpTok (op : Name) : Option JTok :=
+  if op = "||".toList then some (.p .or) else if op = "&&".toList then some (.p .and)
+  else if op = "==".toList then some (.p .eq) else if op = "!=".toList then some (.p .ne)
+  else if op = "<".toList then some (.p .lt) else if op = "<=".toList then some (.p .le)
+  else if op = ">".toList then some (.p .gt) else if op = ">=".toList then some (.p .ge)
+  else if op = "+".toList then some (.p .plus) else if op = "-".toList then some (.p .minus)
+  else if op = "*".toList then some (.p .star) else if op = "/".toList then some (.p .slash)
+  else if op = "%".toList then some (.p .pct) else none
+
+def jsUnTok (op : Name) : Option JTok :=
+  if op = "-".toList then some (.p .minus) else if op = "!".toList then some (.p .bang) else none
+
+/-- receivers of `.name`, `[i]`, `(args)` that are numeric literals or prefix operations are parenthesised (F41 / F42) -/
+def JE.needsParen : JE → Bool
+  | .num _ _ => true
+  | .un _ _ => true
+  | _ => false
+
+def wrapRecv (o : JE) (ts : List JTok) : List JTok := if o.needsParen then .p .lp :: ts ++ [.p .rp] else ts
+
+mutual
+def prJ : JE → List JTok
+  | .num d s => [.num d s]
+  | .lstr s => [.id "new".toList, .id "LingoString".toList, .p .lp, .dstr s, .p .rp]
+  | .dstr s => [.dstr s]
+  | .sstr s => [.sstr s]
+  | .id n => [.id n]
+  | .mem o n => wrapRecv o (prJ o) ++ [.p .dot, .id n]
+  | .idx o i => wrapRecv o (prJ o) ++ .p .lb :: prJ i ++ [.p .rb]
+  | .call f as => wrapRecv f (prJ f) ++ .p .lp :: prJArgs as ++ [.p .rp]
+  | .newLS e => .id "new".toList :: .id "LingoString".toList :: .p .lp :: prJ e ++ [.p .rp]
+  | .un op a => (jsUnTok op).getD (.p .bang) :: .p .lp :: prJ a ++ [.p .rp]
+  | .bin op a b => .p .lp :: prJ a ++ (jsOpTok op).getD (.p .plus) :: prJ b ++ [.p .rp]
+  | .spread n => [.p .dots, .id n]
+/-- `a, b, c` -/
+def prJArgs : List JE → List JTok
+  | [] => []
+  | [e] => prJ e
+  | e :: es => prJ e ++ .p .comma :: prJArgs es
+end
+
 end Drx.Spec
